@@ -1,6 +1,7 @@
 package astits
 
 import (
+	"bytes"
 	"sort"
 )
 
@@ -124,7 +125,8 @@ func hasDiscontinuity(ps []*Packet, p *Packet) bool {
 }
 
 // isSameAsPrevious checks whether a packet is the same as the last packet of a set of packets
+// A duplicate repeats the payload as well: a packet that only repeats the continuity counter follows a loss of 15 packets
 func isSameAsPrevious(ps []*Packet, p *Packet) bool {
 	l := len(ps)
-	return l > 0 && p.Header.HasPayload && p.Header.ContinuityCounter == ps[l-1].Header.ContinuityCounter
+	return l > 0 && p.Header.HasPayload && p.Header.ContinuityCounter == ps[l-1].Header.ContinuityCounter && bytes.Equal(p.Payload, ps[l-1].Payload)
 }
